@@ -4,7 +4,9 @@ package main
 // builds it -> EncodeBinary -> DecodeBinary -> backup-side checks and AddBlock on a replica.
 
 import (
+	"crypto/sha256"
 	"encoding/hex"
+	"errors"
 	"fmt"
 	"os"
 	"slices"
@@ -16,6 +18,7 @@ import (
 	"github.com/nspcc-dev/neo-go/pkg/core"
 	"github.com/nspcc-dev/neo-go/pkg/core/block"
 	"github.com/nspcc-dev/neo-go/pkg/core/mempool"
+	"github.com/nspcc-dev/neo-go/pkg/core/native/nativehashes"
 	"github.com/nspcc-dev/neo-go/pkg/core/native/nativenames"
 	"github.com/nspcc-dev/neo-go/pkg/core/storage"
 	"github.com/nspcc-dev/neo-go/pkg/core/transaction"
@@ -192,6 +195,10 @@ func genRound(o *hx.Out, r *prng.R, s *scen, senders []*acct, committee *acct, n
 		if bind == "sysfee" {
 			c.tx.SystemFee = int64(r.Range(0, 12)) * 1_0000_0000
 		}
+		if manyMode {
+			c.tx.SystemFee = 0
+			c.tx.ValidUntilBlock = height + 6
+		}
 		c.tx.ValidUntilBlock = height + uint32(r.Range(1, 6))
 		if hp {
 			c.tx.Attributes = append(c.tx.Attributes, transaction.Attribute{Type: transaction.HighPriority})
@@ -216,6 +223,9 @@ func genRound(o *hx.Out, r *prng.R, s *scen, senders []*acct, committee *acct, n
 	}
 	return raws
 }
+
+// manyMode: the current case wants a pool of several hundred cheap transactions.
+var manyMode bool
 
 func runProposal(f *hx.Flags, o *hx.Out) {
 	n := f.N(160, 3000)
@@ -243,13 +253,20 @@ func proposalCase(o *hx.Out, k int, r *prng.R) {
 	}
 	// which limit binds
 	bind := []string{"count", "size", "sysfee", "none", "size", "mempool"}[r.Intn(6)]
-	if k < 6 {
+	if k < 7 {
 		bind = "size"
 	}
+	// corpus case 6: more than 252 pooled transactions, so that the count prefix of the capped list (3 bytes) differs
+	// from the one of what is finally taken (1 byte); MaxBlockSize = wire size of the first j (< 253) + 1
+	many := k == 6
+	manyMode = many
 	nc.maxTx = 512
 	nc.maxBlockSize = 2_000_000
 	nc.maxBlockSys = 9000_0000_0000
 	ntx := r.Range(3, 40)
+	if many {
+		ntx = 275
+	}
 	switch bind {
 	case "count":
 		nc.maxTx = uint16(r.Range(1, 12))
@@ -260,7 +277,7 @@ func proposalCase(o *hx.Out, k int, r *prng.R) {
 	case "mempool":
 		nc.memPoolSize = r.Range(2, 10)
 	}
-	boundary := bind == "size" && (k < 6 || r.Chance(2, 3))
+	boundary := (bind == "size" || bind == "sysfee") && (k < 7 || r.Chance(2, 3))
 	if k < 6 {
 		// corpus: the defect fixed by 2cbe22b (state root not counted when sizing the proposal) lived here
 		nc.stateRoot = true
@@ -281,7 +298,9 @@ func proposalCase(o *hx.Out, k int, r *prng.R) {
 		}
 		senders = append(senders, a)
 		amount := int64(r.Range(5, 400)) * 1_0000_0000
-		if r.Chance(1, 5) {
+		if many {
+			amount = 2000_0000_0000
+		} else if r.Chance(1, 5) {
 			amount = int64(r.Range(1, 30)) * 1000_0000 // poor sender: some of its transactions will not fit
 		}
 		amounts = append(amounts, amount)
@@ -305,6 +324,7 @@ func proposalCase(o *hx.Out, k int, r *prng.R) {
 	if boundary {
 		big := *nc
 		big.maxBlockSize = 2_000_000
+		big.maxBlockSys = 9000_0000_0000
 		P := newNetWorld(&big)
 		fundAll(P)
 		preRaws = genRound(o, r, mkScen(P), senders, committee, ntx, bind)
@@ -315,11 +335,32 @@ func proposalCase(o *hx.Out, k int, r *prng.R) {
 		ptxs := P.bc.GetMemPool().GetVerifiedTransactions()
 		if len(ptxs) > 0 {
 			j := r.Range(1, len(ptxs))
+			if many {
+				if len(ptxs) < 253 {
+					panic(tbFail{fmt.Sprintf("corpus case 6: only %d transactions pooled", len(ptxs))})
+				}
+				j = r.Range(100, 252)
+			}
 			pb := consensusBlock(P, &big, ptxs[:j], prng.New(1))
 			bw := io.NewBufBinWriter()
 			pb.EncodeBinary(bw.BinWriter)
-			nc.maxBlockSize = uint32(len(bw.Bytes()) + r.Range(-34, 2))
-			o.Count("proposal:boundary-directed")
+			// exactly at the limit, one off, around the state root's 32 bytes, or somewhere near
+			off := []int{0, 0, 0, -1, 1, -32, -33, r.Range(-34, 2)}[r.Intn(8)]
+			if many {
+				off = 1
+			}
+			if bind == "size" {
+				nc.maxBlockSize = uint32(len(bw.Bytes()) + off)
+				o.Count(fmt.Sprintf("proposal:boundary-directed:size%+d", min(max(off, -2), 2)))
+			} else {
+				var sum int64
+				for _, t := range ptxs[:j] {
+					sum += t.SystemFee
+				}
+				off = []int{0, 0, 0, -1, 1}[r.Intn(5)]
+				nc.maxBlockSys = max(sum+int64(off), 1)
+				o.Count(fmt.Sprintf("proposal:boundary-directed:sysfee%+d", off))
+			}
 		}
 		P.close()
 	}
@@ -342,6 +383,20 @@ func proposalCase(o *hx.Out, k int, r *prng.R) {
 	s := mkScen(A)
 
 	rounds := r.Range(1, 3)
+	moved := map[string]bool{} // Policy values the committee has changed in this case
+	// staleKey names the two known shapes in which a transaction stays pooled although the new Policy value
+	// makes it inadmissible: IsTxStillRelevant re-checks blocked accounts, NetworkFee >= size and attribute fees,
+	// attributes and non-standard witnesses, but not that what is left of NetworkFee still pays the standard
+	// witnesses (after a raise of ExecFeeFactor, FeePerByte or an attribute fee), nor the ValidUntilBlock window.
+	staleKey := func(generic string, err error) string {
+		switch {
+		case (moved["execfee-up"] || moved["feeperbyte-up"] || moved["attrfee-up"]) && strings.Contains(err.Error(), "witness #") && strings.Contains(err.Error(), "GAS limit exceeded"):
+			return "pool-keeps-tx-underpaying-after-fee-raise"
+		case moved["vubinc-down"] && classify(err) == "err:not-yet-valid":
+			return "pool-keeps-tx-beyond-lowered-vubinc"
+		}
+		return generic
+	}
 	for round := 0; round < rounds; round++ {
 		mp := A.bc.GetMemPool()
 		var pooled, rejected int
@@ -350,11 +405,13 @@ func proposalCase(o *hx.Out, k int, r *prng.R) {
 		if raws == nil {
 			raws = genRound(o, r, s, senders, committee, ntx, bind)
 		}
+		var roundTxs []*transaction.Transaction
 		for _, raw := range raws {
 			t, err := transaction.NewTransactionFromBytes(raw)
 			if err != nil {
 				panic(err)
 			}
+			roundTxs = append(roundTxs, t)
 			if err := A.bc.PoolTx(t); err != nil {
 				rejected++
 				o.Count("proposal:pooltx:" + classify(err))
@@ -363,7 +420,7 @@ func proposalCase(o *hx.Out, k int, r *prng.R) {
 			}
 		}
 		o.Add("proposal:pooled", pooled)
-		if r.Chance(1, 2) {
+		if r.Chance(1, 2) && !many {
 			// the chain moves on before this node proposes: the pool is re-checked against the new state
 			nblk := r.Range(1, 2)
 			for i := 0; i < nblk; i++ {
@@ -373,10 +430,47 @@ func proposalCase(o *hx.Out, k int, r *prng.R) {
 			}
 			o.Count("proposal:interleaved-blocks")
 		}
+		policyMoves := r.Chance(1, 3) && !many
+		if policyMoves {
+			// the committee changes a Policy value between pooling and proposing: whatever stays pooled must
+			// still be admissible under the new value (IsTxStillRelevant, blockchain.go:3192-3229)
+			var ptx *transaction.Transaction
+			switch pk := r.Intn(5); pk {
+			case 0:
+				base := A.bc.GetBaseExecFee()
+				v := base * int64(r.Range(2, 3))
+				if nc.hf == "preFaun" {
+					v = min(v/10000, 100) // maxExecFeeFactor
+				} else {
+					v = min(v, 100*10000)
+				}
+				ptx = A.policyTx("setExecFeeFactor", v)
+				moved["execfee-up"] = true
+				o.Count("proposal:policy:execfee-up")
+			case 1:
+				ptx = A.policyTx("setFeePerByte", A.bc.FeePerByte()+int64(r.Range(1, 3000)))
+				moved["feeperbyte-up"] = true
+				o.Count("proposal:policy:feeperbyte-up")
+			case 2:
+				ptx = A.policyTx("setMaxValidUntilBlockIncrement", int64(r.Range(1, 4)))
+				moved["vubinc-down"] = true
+				o.Count("proposal:policy:vubinc-down")
+			case 3:
+				ptx = A.policyTx("blockAccount", senders[r.Intn(len(senders))].hash)
+				o.Count("proposal:policy:block-sender")
+			default:
+				ptx = A.policyTx("setAttributeFee", int64(transaction.ConflictsT), int64(r.Range(1, 2_000_000)))
+				moved["attrfee-up"] = true
+				o.Count("proposal:policy:conflicts-fee-up")
+			}
+			if !send(A.addBlock(ptx), "policy-block") {
+				return
+			}
+		}
 		// what is pooled is admissible on the current state (each on its own)
 		for _, t := range mp.GetVerifiedTransactions() {
 			if err := A.bc.VerifyTx(t); err != nil {
-				o.Fail("pool-holds-inadmissible-tx", k, "pooled transaction %s does not verify at height %d: %v", t.Hash().StringLE(), A.bc.BlockHeight(), err)
+				o.Fail(staleKey("pool-holds-inadmissible-tx", err), k, "pooled transaction %s does not verify at height %d: %v", t.Hash().StringLE(), A.bc.BlockHeight(), err)
 				break
 			}
 		}
@@ -384,18 +478,26 @@ func proposalCase(o *hx.Out, k int, r *prng.R) {
 		picked := A.bc.ApplyPolicyToTxSet(txs)
 
 		// --- model line: the cut ApplyPolicyToTxSet makes -------------------------------------
-		// size of a block without transactions, measured on the wire (not with the function under test):
-		// an empty block signed by the validators, minus the one-byte transaction count
-		eb := consensusBlock(A, nc, nil, prng.New(2))
-		ebw := io.NewBufBinWriter()
-		eb.EncodeBinary(ebw.BinWriter)
-		overhead := len(ebw.Bytes()) - 1
+		// the model sizes the block itself: state root flag and the validators' keys (builder order) are all it gets
+		vals, _ := A.bc.GetNextBlockValidators()
+		svals := slices.Clone(vals)
+		slices.SortFunc(svals, func(a, b *keys.PublicKey) int { return a.Cmp(b) })
+		var vhex []byte
+		for _, v := range svals {
+			vhex = append(vhex, v.Bytes()...)
+		}
 		var sb strings.Builder
-		fmt.Fprintf(&sb, "pack %d %d %d %d %d", bcfg.MaxTransactionsPerBlock, bcfg.MaxBlockSize, bcfg.MaxBlockSystemFee, overhead, len(txs))
+		fmt.Fprintf(&sb, "pack %d %d %d %d %s %d", bcfg.MaxTransactionsPerBlock, bcfg.MaxBlockSize, bcfg.MaxBlockSystemFee, b2i(bcfg.StateRootInHeader), hx.Hex(vhex), len(txs))
 		for _, t := range txs {
 			fmt.Fprintf(&sb, " %d %d", t.Size(), t.SystemFee)
 		}
 		o.Line(sb.String(), fmt.Sprintf("%d", len(picked)))
+		// the same pool under the extreme values of one limit: the count prefix, the exact boundary of every prefix
+		if len(txs) > 0 && r.Chance(1, 2) {
+			packSublistLines(o, r, A, bcfg, vhex, txs)
+		}
+		// the scratch pool of a backup / of AddBlock on everything this round generated, conflicts and poor senders included
+		scratchLine(o, k, s, A, roundTxs)
 
 		// --- the statement's oracle ---------------------------------------------------------
 		// a prefix in pool order
@@ -431,6 +533,20 @@ func proposalCase(o *hx.Out, k int, r *prng.R) {
 			}
 			o.Fail(key, k, "block of %d picked transactions is %d bytes on the wire (GetExpectedBlockSize %d) > MaxBlockSize %d: a backup's verifyBlock rejects this proposal (validators %d, StateRootInHeader %v)", len(picked), wire, b.GetExpectedBlockSize(), bcfg.MaxBlockSize, nc.nVal, nc.stateRoot)
 		}
+		o.Line(fmt.Sprintf("expsize %d %s %s %d", b2i(b.StateRootEnabled), hx.Hex(b.Script.InvocationScript), hx.Hex(b.Script.VerificationScript), len(picked)),
+			fmt.Sprintf("%d", b.GetExpectedBlockSizeWithoutTransactions(len(picked))))
+		if wire <= 40000 {
+			var eb strings.Builder
+			fmt.Fprintf(&eb, "encblock %d %s %s %d %d %d %d %s %d %s %s %s %d", b.Version, hx.Hex(b.PrevHash[:]), hx.Hex(b.MerkleRoot[:]), b.Timestamp, b.Nonce,
+				b.Index, b.PrimaryIndex, hx.Hex(b.NextConsensus[:]), b2i(b.StateRootEnabled), hx.Hex(b.PrevStateRoot[:]),
+				hx.Hex(b.Script.InvocationScript), hx.Hex(b.Script.VerificationScript), len(picked))
+			for _, t := range picked {
+				eb.WriteString(" " + hx.Hex(t.Bytes()))
+			}
+			sum := sha256.Sum256(wireBytes)
+			o.Line(eb.String(), fmt.Sprintf("%d %s %d", wire, hx.Hex(sum[:]), b.GetExpectedBlockSize()))
+			o.Count("proposal:encblock")
+		}
 		if b.GetExpectedBlockSize() != wire {
 			o.Fail("expected-block-size", k, "GetExpectedBlockSize %d, %d bytes on the wire", b.GetExpectedBlockSize(), wire)
 		}
@@ -448,11 +564,12 @@ func proposalCase(o *hx.Out, k int, r *prng.R) {
 		vp := mempool.New(len(nb.Transactions)+1, false, nil)
 		for i, t := range nb.Transactions {
 			if err := B.bc.PoolTx(t, vp); err != nil {
-				o.Fail("backup-rejects-tx", k, "transaction %d of the proposal: %v", i, err)
+				o.Fail(staleKey("backup-rejects-tx", err), k, "transaction %d of the proposal: %v", i, err)
+				break
 			}
 		}
 		if err := B.bc.AddBlock(nb); err != nil {
-			o.Fail("replica-rejects-proposal", k, "AddBlock on the replica: %v (picked %d, validators %d, stateroot %v)", err, len(picked), nc.nVal, nc.stateRoot)
+			o.Fail(staleKey("replica-rejects-proposal", err), k, "AddBlock on the replica: %v (picked %d, validators %d, stateroot %v)", err, len(picked), nc.nVal, nc.stateRoot)
 			return
 		}
 		if err := A.bc.AddBlock(b); err != nil {
@@ -482,5 +599,116 @@ func proposalCase(o *hx.Out, k int, r *prng.R) {
 			o.Sample(fmt.Sprintf("proposal: %d pooled (%d rejected), picked %d, block %d bytes, bind=%s validators=%d stateroot=%v", len(txs), rejected, len(picked), wire, bind, nc.nVal, nc.stateRoot))
 		}
 		ntx = r.Range(0, 15)
+	}
+}
+
+// packSublistLines calls ApplyPolicyToTxSet on random contiguous sub-lists of the pool (a running chain cannot change
+// its limits, but the list it is given can): this moves the count prefix and the position of the cut.
+func packSublistLines(o *hx.Out, r *prng.R, A *world, bcfg config.Blockchain, vhex []byte, txs []*transaction.Transaction) {
+	for i := 0; i < 3; i++ {
+		lo := r.Intn(len(txs))
+		hi := lo + r.Range(1, len(txs)-lo)
+		sub := txs[lo:hi]
+		picked := A.bc.ApplyPolicyToTxSet(slices.Clone(sub))
+		var sb strings.Builder
+		fmt.Fprintf(&sb, "pack %d %d %d %d %s %d", bcfg.MaxTransactionsPerBlock, bcfg.MaxBlockSize, bcfg.MaxBlockSystemFee, b2i(bcfg.StateRootInHeader), hx.Hex(vhex), len(sub))
+		for _, t := range sub {
+			fmt.Fprintf(&sb, " %d %d", t.Size(), t.SystemFee)
+		}
+		o.Line(sb.String(), fmt.Sprintf("%d", len(picked)))
+		o.Count("proposal:pack-sublist")
+	}
+}
+
+func classifyPool(err error) string {
+	switch {
+	case err == nil:
+		return "ok"
+	case errors.Is(err, mempool.ErrDup):
+		return "err:pool-dup"
+	case errors.Is(err, mempool.ErrConflictsAttribute):
+		return "err:pool-conflicts-attr"
+	case errors.Is(err, mempool.ErrInsufficientFunds):
+		return "err:insufficient-funds"
+	case errors.Is(err, mempool.ErrConflict):
+		return "err:pool-conflict"
+	case errors.Is(err, mempool.ErrOracleResponse):
+		return "err:pool-oracle"
+	case errors.Is(err, mempool.ErrOOM):
+		return "err:oom"
+	}
+	return "err:other"
+}
+
+// scratchLine adds txs one after the other to an empty pool of capacity len(txs) (what a backup and AddBlock do
+// with the transactions of a block) and renders what mempool.Add reads of them for the model.
+func scratchLine(o *hx.Out, k int, s *scen, w *world, txs []*transaction.Transaction) {
+	if len(txs) == 0 {
+		return
+	}
+	mp := mempool.New(len(txs), false, nil)
+	hid := map[util.Uint256]int{}
+	id := func(h util.Uint256) int {
+		if v, ok := hid[h]; ok {
+			return v
+		}
+		hid[h] = len(hid) + 1
+		return hid[h]
+	}
+	type payer struct{ p, s util.Uint160 }
+	var payers []payer
+	seen := map[payer]bool{}
+	var body strings.Builder
+	var verdicts []string
+	for _, t := range txs {
+		q := payer{p: t.Sender()}
+		if t.Sender() == nativehashes.Notary && len(t.Signers) > 1 {
+			q.s = t.Signers[1].Account
+		}
+		if !seen[q] {
+			seen[q] = true
+			payers = append(payers, q)
+		}
+		fmt.Fprintf(&body, " %d %d %d %d", id(t.Hash()), t.SystemFee, t.NetworkFee, len(t.Signers))
+		for _, sg := range t.Signers {
+			fmt.Fprintf(&body, " %d", s.id(sg.Account))
+		}
+		cf := t.GetAttributes(transaction.ConflictsT)
+		fmt.Fprintf(&body, " %d", len(cf))
+		for _, a := range cf {
+			fmt.Fprintf(&body, " %d", id(a.Value.(*transaction.Conflicts).Hash))
+		}
+		if or := t.GetAttributes(transaction.OracleResponseT); len(or) > 0 {
+			fmt.Fprintf(&body, " %d", or[0].Value.(*transaction.OracleResponse).ID)
+		} else {
+			body.WriteString(" -")
+		}
+		v := classifyPool(mp.Add(t, w.bc))
+		verdicts = append(verdicts, v)
+		o.Count("scratch:" + v)
+	}
+	var content []int
+	for _, t := range mp.GetVerifiedTransactions() {
+		content = append(content, id(t.Hash()))
+	}
+	slices.Sort(content)
+	var cs []string
+	for _, c := range content {
+		cs = append(cs, fmt.Sprint(c))
+	}
+	var head strings.Builder
+	fmt.Fprintf(&head, "scratch %d %d", s.id(nativehashes.Notary), len(payers))
+	for _, q := range payers {
+		bal := w.bc.GetUtilityTokenBalance(q.p, q.s)
+		sid := 0
+		if q.s != (util.Uint160{}) {
+			sid = s.id(q.s)
+		}
+		fmt.Fprintf(&head, " %d %d %s", s.id(q.p), sid, bal.String())
+	}
+	fmt.Fprintf(&head, " %d", len(txs))
+	o.Line(head.String()+body.String(), strings.Join(verdicts, ",")+" "+strings.Join(cs, ","))
+	if len(content) != len(txs) {
+		o.Count("scratch:some-rejected-or-replaced")
 	}
 }
